@@ -10,7 +10,7 @@ git -C /repo diff --quiet || { echo "/repo has local changes; refusing"; exit 2;
 git -C /repo apply "$SD/patch.diff" || { echo "patch does not apply"; exit 2; }
 trap 'git -C /repo checkout -- . ' EXIT
 echo "== demo with patch (expect FAIL / exit 1)"
-QKERAS_REPO=/repo /venv/bin/python "$SD/demo.py" > "$SD/demo_patched.out" 2>&1; echo "demo exit: $?"; tail -2 "$SD/demo_patched.out" | cut -c1-300
+QKERAS_REPO=/repo QK_REPO=/repo TF_CPP_MIN_LOG_LEVEL=3 /venv/bin/python "$SD/demo.py" > "$SD/demo_patched.out" 2>&1; echo "demo exit: $?"; tail -2 "$SD/demo_patched.out" | cut -c1-300
 if [ "${SKIP_SUITE:-0}" != "1" ]; then
 echo "== baseline suite with patch"
 (cd /repo && timeout 2400 /venv/bin/python -m pytest -q -p no:cacheprovider --timeout=900 --continue-on-collection-errors --junitxml=/tmp/seed_suite.xml > /tmp/seed_suite.log 2>&1; tail -1 /tmp/seed_suite.log)
@@ -32,5 +32,5 @@ done
 git -C /repo checkout -- .
 trap - EXIT
 echo "== demo without patch (expect PASS / exit 0)"
-QKERAS_REPO=/repo /venv/bin/python "$SD/demo.py" > "$SD/demo_clean.out" 2>&1; echo "demo exit: $?"; tail -1 "$SD/demo_clean.out" | cut -c1-200
+QKERAS_REPO=/repo QK_REPO=/repo TF_CPP_MIN_LOG_LEVEL=3 /venv/bin/python "$SD/demo.py" > "$SD/demo_clean.out" 2>&1; echo "demo exit: $?"; tail -1 "$SD/demo_clean.out" | cut -c1-200
 git -C /repo status --short | head -3
